@@ -179,18 +179,32 @@ func init() {
 			if t := r.Float64(); t < 0.12 {
 				// readers template: several callers read existing files through their own
 				// handles at the same time (restore goroutines overlap), one caller writes
-				c.Ops = append(c.Ops, Op{K: "mkdir", P: "/s", M: 0o755}, Op{K: "writefile", P: "/t", D: &Data{Len: 3000, Kind: "text", Tag: 0x7779}},
-					Op{K: "writefile", P: "/s/f", D: &Data{Len: 700, Kind: "rand", Tag: 0x777a}})
+				// (/t is exactly one record of the largest record size that is common: 10240 bytes)
+				sizes := map[string]int{"/t": []int{3000, 10240}[r.IntN(2)], "/s/f": 700}
+				c.Ops = append(c.Ops, Op{K: "mkdir", P: "/s", M: 0o755}, Op{K: "writefile", P: "/t", D: &Data{Len: sizes["/t"], Kind: "text", Tag: 0x7779}},
+					Op{K: "writefile", P: "/s/f", D: &Data{Len: sizes["/s/f"], Kind: "rand", Tag: 0x777a}})
 				var ps [][]Op
+				exact := r.IntN(2) == 0
 				for ci := 0; ci < 2+r.IntN(3); ci++ {
 					var ops []Op
 					for k := 0; k < 1+r.IntN(2); k++ {
 						h := ci*100 + k + 1
-						ops = append(ops, Op{K: "open", P: []string{"/t", "/s/f"}[r.IntN(2)], H: h}, Op{K: "h.read", H: h, N: 1 << 16}, Op{K: "h.close", H: h})
+						p := []string{"/t", "/s/f"}[r.IntN(2)]
+						n := 1 << 16
+						if exact {
+							// every byte, but not one Read more: the restore has delivered everything and has to
+							// let go of the drive without being asked again (this is not a partial read)
+							n = sizes[p]
+						}
+						ops = append(ops, Op{K: "open", P: p, H: h}, Op{K: "h.read", H: h, N: n})
+						if exact {
+							ops = append(ops, Op{K: "stat", P: "/s"})
+						}
+						ops = append(ops, Op{K: "h.close", H: h})
 					}
 					ps = append(ps, ops)
 				}
-				if r.IntN(2) == 0 {
+				if exact || r.IntN(2) == 0 {
 					ps = append(ps, []Op{{K: "mkdir", P: "/w", M: 0o755}, {K: "stat", P: "/t"}})
 				}
 				c.Progs = ps
